@@ -1,8 +1,8 @@
 package eng
 
 import (
-	"github.com/Oudwins/zog/conf"
 	"fmt"
+	"github.com/Oudwins/zog/conf"
 	"reflect"
 	"sort"
 	"strings"
@@ -148,14 +148,21 @@ func (o *Observed) canon(n *Node) string {
 	fmt.Fprintf(&b, "panic=%v nil=%v\n", o.Panic != "", o.Nil)
 	for _, k := range o.Keys {
 		var kb strings.Builder
+		var parts []string
 		for _, i := range o.ByKey[k] {
 			// the property (C09) speaks of issues from required checks, coercion and tests; an issue that
 			// wraps a PostTransform's own error (or is the ZogIssue a callback returned) is not one of them
 			if (i.Code == "" && i.HasErr) || i.Code == "user_code" {
 				continue
 			}
-			fmt.Fprintf(&kb, " {%s|%s|%s|%v|%s}", i.Path, i.Code, i.Dtype, i.Params, i.Message)
+			parts = append(parts, fmt.Sprintf(" {%s|%s|%s|%v|%s}", i.Path, i.Code, i.Dtype, i.Params, i.Message))
 		}
+		if hasIssuePath(n) {
+			// a key that tests of several nodes report under (IssuePath) lists them in visit order:
+			// the same issues, their order within the key is not compared
+			sort.Strings(parts)
+		}
+		kb.WriteString(strings.Join(parts, ""))
 		if kb.Len() > 0 {
 			fmt.Fprintf(&b, "%q:%s\n", k, kb.String())
 		}
@@ -535,10 +542,10 @@ func (c *Case) oracles() string {
 // Stats summarises the input distribution of a batch.
 type Stats struct {
 	Cases, Validate, Known, Wrapped, Panics, WithIssues, NilResult int
-	Kinds                                                         map[string]int
-	Codes                                                         map[string]int
-	Shapes                                                        map[string]bool
-	Outcomes                                                      map[string]bool
+	Kinds                                                          map[string]int
+	Codes                                                          map[string]int
+	Shapes                                                         map[string]bool
+	Outcomes                                                       map[string]bool
 }
 
 func NewStats() *Stats {
